@@ -200,6 +200,14 @@ func GenWorld(r *core.PRNG, o WorldOpts) *LWorld {
 			}
 			p.Files = append(p.Files, lf)
 		}
+		if o.Decoys && conflictPkg != i && r.Chance(1, 4) {
+			// a file that holds nothing but the package clause and comes first in name order (doc.go)
+			lf := &LFile{Name: "0-doc.go"}
+			for v := 0; v < o.Versions; v++ {
+				lf.Vers = append(lf.Vers, LFileVer{Data: "// Package " + p.Name + " is documented here.\npackage " + p.Name + "\n"})
+			}
+			p.Files = append(p.Files, lf)
+		}
 		if o.Decoys {
 			if r.Chance(1, 2) {
 				lf := &LFile{Name: core.Pick(r, []string{"a_test.go", "main_test.go", "x_test.go"}), Test: true}
